@@ -77,7 +77,7 @@ MUTANTS += [
          new="                    factor_idx[-k] = dependent_dict[f.name][idx-k] if k < 2 else dependent_dict[f.name][idx-k+1]\n                outlist.append(factor_idx)\n        if len(outlist)<2:"),
     dict(id="c23-desugar-copies", property="C23", file="sweetpea/_internal/primitive.py", old="        derived_f = DerivedFactor(HiddenName(cast(str, self.name)), list(derived_levels.values()))",
          new="        derived_f = DerivedFactor(HiddenName(cast(str, self.name)), list(derived_levels.values()))\n        flat_f.levels = flat_f.levels[:-1] if len(flat_f.levels) > 3 else flat_f.levels"),
-    dict(id="c09-random-exhaust", property="C09", file="sweetpea/_internal/sampling_strategy/random.py", old="            if len(used_keys) == possible_keys:\n                break", new="            if len(used_keys) >= possible_keys - 1 and possible_keys > 20:\n                break"),
+    dict(id="c06-random-exhaust", property="C06", file="sweetpea/_internal/sampling_strategy/random.py", old="            if len(used_keys) == possible_keys:\n                break", new="            if len(used_keys) >= possible_keys - 1 and possible_keys > 20:\n                break"),
     dict(id="c25-nest-sustain", property="C25", file=XB, old="        outer_sustain_counts = [inner_len * sc for sc in outer_block.crossing_sustain_counts]", new="        outer_sustain_counts = [max(1, inner_len - 1) * sc for sc in outer_block.crossing_sustain_counts]"),
     dict(id="c15-overlap-not-rejected", property="C15", file="sweetpea/_internal/derivation_processor.py", old="                        if level_tuple in according_level:\n                            raise ValueError(", new="                        if level_tuple in according_level and len(factor.levels) > 2:\n                            raise ValueError("),
     dict(id="c03-tseitin-iff-missing-clause", property="C03", file="sweetpea/_internal/logic.py", old="            clauses.append(Or([Not(new_p), Not(new_q),     new_rep ]))\n", new=""),
